@@ -99,6 +99,16 @@ type executor struct {
 	laneOf func(hash int) int
 	// waitStopped blocks until the executor reports that its lane goroutines are gone (WaitGroup / WaitStop)
 	waitStopped func()
+	// run starts the lane goroutines (Run); started says whether that has happened
+	run     func()
+	started bool
+}
+
+func (e *executor) start() {
+	if !e.started {
+		e.started = true
+		e.run()
+	}
 }
 
 type procFn func(ctx context.Context) (interface{}, error)
@@ -114,7 +124,7 @@ func isRefusal(kind string, err error) (closed, full bool) {
 	}
 }
 
-func newExecutor(kind string, slots, qsize int) *executor {
+func newExecutor(kind string, slots, qsize int, lateRun bool) *executor {
 	e := &executor{kind: kind, slots: 1, laneOf: func(int) int { return 0 }}
 	wrap := func(fn callee) func(ctx context.Context) (interface{}, error) {
 		return func(ctx context.Context) (interface{}, error) {
@@ -129,7 +139,7 @@ func newExecutor(kind string, slots, qsize int) *executor {
 	case KLine:
 		wg := &sync.WaitGroup{}
 		l := line.NewLine(wg, line.WithQSize(qsize), line.WithName("verif"))
-		l.Run()
+		e.run = l.Run
 		e.call = func(ctx context.Context, _ int, fn callee) (interface{}, error) {
 			return l.AsyncCall(ctx, line.NewCallCtx(func(ctx context.Context, req interface{}) (interface{}, error) {
 				return wrap(fn)(ctx)
@@ -139,7 +149,7 @@ func newExecutor(kind string, slots, qsize int) *executor {
 		e.waitStopped = wg.Wait
 	case KMLine:
 		ml := mline.NewMultiLine(pipe.WithSlotSize(slots), pipe.WithQSize(qsize))
-		ml.Run()
+		e.run = ml.Run
 		e.slots = slots
 		e.laneOf = ml.IndexOf
 		e.call = func(ctx context.Context, hash int, fn callee) (interface{}, error) {
@@ -156,7 +166,7 @@ func newExecutor(kind string, slots, qsize int) *executor {
 	case KRunCall, KRunDeleg, KRunProc:
 		rwg := &sync.WaitGroup{}
 		r := pasync.NewRunnerQ(pasync.WithQSize(qsize), pasync.WithName("verif"), pasync.WithWaitGroup(rwg))
-		r.Run()
+		e.run = r.Run
 		e.waitStopped = func() { r.WaitStop(); rwg.Wait() }
 		switch kind {
 		case KRunCall:
@@ -176,7 +186,7 @@ func newExecutor(kind string, slots, qsize int) *executor {
 	case KProcChan:
 		pwg := &sync.WaitGroup{}
 		p := pasync.NewProcChan(pasync.WithQSize(qsize), pasync.WithName("verif"), pasync.WithWaitGroup(pwg))
-		p.Run()
+		e.run = p.Run
 		e.waitStopped = func() { p.WaitStop(); pwg.Wait() }
 		e.call = func(ctx context.Context, _ int, fn callee) (interface{}, error) {
 			return p.AsyncProc(ctx, procFn(wrap(fn)))
@@ -184,6 +194,9 @@ func newExecutor(kind string, slots, qsize int) *executor {
 		e.stop = p.Stop
 	default:
 		return nil
+	}
+	if !lateRun {
+		e.start()
 	}
 	return e
 }
@@ -222,7 +235,22 @@ type Step struct {
 	Hash      int    `json:"hash,omitempty"`
 	Behave    string `json:"behave,omitempty"` // ok | err | gate | ctx
 	PreCancel bool   `json:"pre_cancel,omitempty"`
-	Target    int    `json:"target,omitempty"` // open / cancel: index of the call (in issue order)
+	// LateDone (with PreCancel): the context is over (Err() says so) but its Done() method only returns - a closed
+	// channel, as it must - once the harness has let the lane have its turn: the caller is held in front of its
+	// wait while the executor already deals with the call
+	LateDone bool `json:"late_done,omitempty"`
+	Target   int  `json:"target,omitempty"` // open / cancel: index of the call (in issue order)
+}
+
+// lateDoneCtx is an ended context whose Done() takes its time.
+type lateDoneCtx struct {
+	context.Context
+	release chan struct{}
+}
+
+func (c lateDoneCtx) Done() <-chan struct{} {
+	<-c.release
+	return c.Context.Done()
 }
 
 type CaseCtl struct {
@@ -230,6 +258,9 @@ type CaseCtl struct {
 	Slots int    `json:"slots"`
 	QSize int    `json:"qsize"`
 	Steps []Step `json:"steps"`
+	// LateRun: the executor's Run is not called when it is built but by a "run" step (or, if there is none, at the
+	// start of the epilogue): calls are accepted - and Stop may be called - before the lanes run
+	LateRun bool `json:"late_run,omitempty"`
 }
 
 func GenCtl(t *rapid.T) CaseCtl {
@@ -268,6 +299,7 @@ func GenCtl(t *rapid.T) CaseCtl {
 			}
 			st.Behave = rapid.SampledFrom(w).Draw(t, "behave")
 			st.PreCancel = rapid.IntRange(0, 9).Draw(t, "pre") == 0
+			st.LateDone = st.PreCancel && rapid.Bool().Draw(t, "latedone")
 			if st.Behave == "gate" {
 				gates = append(gates, ncalls)
 			}
@@ -287,6 +319,13 @@ func GenCtl(t *rapid.T) CaseCtl {
 		default:
 			stopped = true
 			c.Steps = append(c.Steps, Step{Op: "stop"})
+		}
+	}
+	if rapid.IntRange(0, 5).Draw(t, "laterun") == 0 {
+		c.LateRun = true
+		if rapid.Bool().Draw(t, "runstep") {
+			at := rapid.IntRange(0, len(c.Steps)).Draw(t, "runat")
+			c.Steps = append(c.Steps[:at:at], append([]Step{{Op: "run"}}, c.Steps[at:]...)...)
 		}
 	}
 	return c
@@ -394,15 +433,18 @@ func judge(res *vkit.Result, c CaseCtl, ex *executor, calls []*callRun, log *evl
 		if _, busy := running[ln]; busy {
 			continue // something is (legitimately) blocked inside the callee: later calls wait
 		}
+		if !ex.started {
+			continue // nobody has called Run yet: accepted calls wait in the queue
+		}
 		for _, i := range acc {
 			cl := calls[i]
 			if starts[i] > 0 {
 				continue
 			}
-			skippable := false
+			// "executed at most once": an executor may skip a call whose caller's context ended before it ran
+			// (the runner does; a line or multi-line that did would be within the statement too)
+			skippable := cl.cancelled
 			switch c.Kind {
-			case KRunCall, KRunDeleg, KRunProc:
-				skippable = cl.cancelled // the runner may skip a call whose context ended before it ran
 			case KProcChan:
 				skippable = cl.cancelled || stopped // the proc channel drops its backlog at Stop
 			}
@@ -497,7 +539,7 @@ func ExecCtl(c CaseCtl) *vkit.Result {
 	// the baseline is taken first, so the lane goroutines belong to the tracked set:
 	// a quiescent cut covers them too, and their termination shows in the final cut
 	sched := vkit.NewSched()
-	ex := newExecutor(c.Kind, c.Slots, c.QSize)
+	ex := newExecutor(c.Kind, c.Slots, c.QSize, c.LateRun)
 	if ex == nil {
 		res.Skip("malformed-config")
 		return res
@@ -531,10 +573,16 @@ func ExecCtl(c CaseCtl) *vkit.Result {
 				return res.Failf("index-range", "%s: IndexOf(%d) = %d, outside [0,%d)", what, hash, cl.lane, ex.slots)
 			}
 			cl.ctx, cl.cancel = context.WithCancel(context.Background())
+			var lateRelease chan struct{}
 			if st.PreCancel {
 				cl.cancel()
 				cl.cancelled, cl.cancelledBeforeIssue = true, true
 				res.Class("cancelled-before-enqueue")
+				if st.LateDone {
+					lateRelease = make(chan struct{})
+					cl.ctx = lateDoneCtx{cl.ctx, lateRelease}
+					res.Class("cancelled-before-enqueue-done-fires-late")
+				}
 			}
 			// classes (on what the controller knows)
 			for _, o := range calls {
@@ -565,6 +613,20 @@ func ExecCtl(c CaseCtl) *vkit.Result {
 				return value(i), nil
 			}
 			cl.op = sched.Go(fmt.Sprintf("caller-%d", i), func() { cl.res, cl.err = ex.call(cl.ctx, hash, fn) })
+			if lateRelease != nil {
+				// whoever asks this context for its Done channel is held until the executor has had its turn
+				sched.MustQuiesce()
+				close(lateRelease)
+			}
+		case "run":
+			if ex.started {
+				res.Skip("run-of-a-running-executor")
+				continue
+			}
+			if stopped {
+				res.Class("run-after-stop")
+			}
+			ex.start()
 		case "open":
 			if st.Target < 0 || st.Target >= len(calls) || calls[st.Target].opened {
 				res.Skip("open-of-nothing")
@@ -622,6 +684,14 @@ func ExecCtl(c CaseCtl) *vkit.Result {
 		res.NonTrivial = true
 	}
 	// epilogue: open every gate, then Stop; everything accepted must run (line, mline, runner)
+	if !ex.started {
+		if stopped {
+			res.Class("run-after-stop")
+		}
+		res.Class("run-in-the-epilogue")
+		ex.start()
+		sched.MustQuiesce()
+	}
 	for _, cl := range calls {
 		if !cl.opened {
 			cl.opened = true
@@ -792,7 +862,7 @@ func ExecStress(c CaseStress) *vkit.Result {
 		defer runtime.GOMAXPROCS(runtime.GOMAXPROCS(c.Procs))
 	}
 	sched := vkit.NewSched()
-	ex := newExecutor(c.Kind, c.Slots, c.QSize)
+	ex := newExecutor(c.Kind, c.Slots, c.QSize, false)
 	if ex == nil {
 		res.Skip("malformed-config")
 		return res
